@@ -1,9 +1,11 @@
 """C03 - transactions are atomic and the data they hand out is isolated from the MDIB."""
 from __future__ import annotations
 
+import ast
+
 import z3
 
-from pyvc.api import (FnCheck, LoopSpec, Pure, Inline, register, Build, V, Val, SeqVal, IntS, RealS, BoolS, StrS, NONE,
+from pyvc.api import (FnCheck, ScanCheck, LoopSpec, Pure, Inline, register, Build, V, Val, SeqVal, IntS, RealS, BoolS, StrS, NONE,
                       Raise, Unsupported, fresh, vany, vint, vreal, vbool, vstr, vref, as_int, unbox_as, truthy, field)
 from pyvc.state import FRESH_BASE
 
@@ -824,3 +826,70 @@ class DescrTxAddState(_DescrTxStates):
         ex.oblige(st, 'remembered_version_applied_iff_requested', z3.And(
             z3.Implies(self.adjust.e, z3.BoolVal(len(sv) == 1)), z3.Implies(z3.Not(self.adjust.e), z3.BoolVal(len(sv) == 0))))
         ex.oblige(st, 'descriptor_queue_untouched', self.unchanged_queue(st0, st))
+
+
+@register
+class TransactionBodiesOnlyQueue(ScanCheck):
+    id = 'C03.transaction_bodies_never_mutate_the_tables'
+    prop = 'C03'
+    doc = ('frame over sdc11073.mdib.transactions: every call of a table-mutating method (add_/remove_/update_object[s]'
+           '[_no_lock], clear, add_index of MultiKeyLookup and its MDIB subclasses; rm_descriptors_and_states, '
+           'rm_descriptor_by_handle, add_description_containers, add_state_containers, clear_states of the MDIB) and '
+           'every assignment to an attribute of self._mdib occurs only in the commit step (process_transaction and the '
+           '_handle_state_updates helper, which is called from process_transaction only) - no API method a transaction '
+           'body can call (get_state, add_state, write_entity, remove_entity, ...) touches a table, so an aborted body '
+           'leaves them as they were. Receivers are not resolved (any receiver counts), callee names are matched')
+
+    MUTATORS = {'add_object', 'add_object_no_lock', 'add_objects', 'add_objects_no_lock', 'remove_object',
+                'remove_object_no_lock', 'remove_objects', 'remove_objects_no_lock', 'update_object', 'update_object_no_lock',
+                'update_objects', 'update_objects_no_lock', 'clear', 'add_index', '_add_object', '_mk_indices', '_rm_indices',
+                '_update_indices', '_save_version', 'rm_descriptors_and_states', 'rm_descriptor_by_handle',
+                'add_description_containers', 'add_state_containers', 'clear_states'}
+    COMMIT = {'process_transaction', '_handle_state_updates'}
+
+    def scan(self, repo):
+        out = []
+        mod = repo.module('sdc11073.mdib.transactions')
+        # the mutator list covers every method of the table classes that is not a pure read (anti-rot: a method added to
+        # MultiKeyLookup that is neither listed here nor a known reader and is called from a transaction body is reported)
+        mk = repo.module('sdc11073.multikey')
+        readers = {'__init__', 'objects', 'lock', '__getattr__', 'find', 'find_no_lock', 'get', 'get_one', 'set_version'}
+        table_methods = {n.name for n in mk.classes['MultiKeyLookup'].body if isinstance(n, ast.FunctionDef)}
+        unclassified = table_methods - readers - self.MUTATORS
+        sites, mdib_writes, unclass_calls, helper_callers = [], [], [], []
+        for cname, cd in mod.classes.items():
+            for fn in [n for n in cd.body if isinstance(n, ast.FunctionDef)]:
+                for n in ast.walk(fn):
+                    if isinstance(n, ast.Call) and isinstance(n.func, ast.Attribute):
+                        if n.func.attr in self.MUTATORS and not (n.func.attr == 'clear' and not ast.unparse(n.func.value).startswith('self._mdib')):
+                            sites.append((cname, fn.name, ast.unparse(n.func), n.lineno))
+                        if n.func.attr in unclassified:
+                            unclass_calls.append((cname, fn.name, ast.unparse(n.func)))
+                        if n.func.attr == '_handle_state_updates':
+                            helper_callers.append((cname, fn.name))
+                    tgts = []
+                    if isinstance(n, ast.Assign):
+                        tgts = n.targets
+                    elif isinstance(n, (ast.AugAssign, ast.AnnAssign)):
+                        tgts = [n.target]
+                    elif isinstance(n, ast.Delete):
+                        tgts = n.targets
+                    for t in tgts:
+                        for t2 in (t.elts if isinstance(t, (ast.Tuple, ast.List)) else [t]):
+                            base = t2
+                            while isinstance(base, (ast.Attribute, ast.Subscript)):
+                                base = base.value
+                                if ast.unparse(base) == 'self._mdib':
+                                    mdib_writes.append((cname, fn.name, ast.unparse(t2), n.lineno))
+                                    break
+        outside = [s for s in sites if s[1] not in self.COMMIT]
+        for s in outside:
+            out.append((f'mutation.{s[0]}.{s[1]}', False, {'call': s[2], 'line': s[3]}))
+        out.append(('table_mutations_only_in_the_commit_step', not outside, {'outside': str(outside)[:300]}))
+        out.append(('commit_step_does_mutate', len(sites) >= 4, {'n': len(sites)}))       # anti-vacuity: the scan sees the commit's writes
+        w_out = [w for w in mdib_writes if w[1] not in self.COMMIT]
+        out.append(('mdib_attributes_assigned_only_in_the_commit_step', not w_out, {'outside': str(w_out)[:300]}))
+        out.append(('state_update_helper_called_from_commit_only', all(f in self.COMMIT for _, f in helper_callers) and helper_callers,
+                    {'callers': str(helper_callers)}))
+        out.append(('no_unclassified_table_method_called', not unclass_calls, {'calls': str(unclass_calls)[:300]}))
+        return out
